@@ -19,7 +19,7 @@ DIST_CLS = dict(Cholesky=V.CholeskyVariationalDistribution, MeanField=V.MeanFiel
                 TrilNatural=V.TrilNaturalVariationalDistribution)
 DEFAULT_JITTER = 1e-6       # settings.variational_cholesky_jitter for float64
 GRID_PRIOR_JITTER = 1e-3    # GridInterpolationVariationalStrategy.prior_distribution: add_jitter(1e-3)
-UNWHITENED_EVAL_PRIOR_JITTER = None   # UnwhitenedVariationalStrategy.prior_distribution: jitter_val since the fix: commit (was add_jitter() default 1e-3)
+UNWHITENED_EVAL_PRIOR_JITTER = 1e-3   # UnwhitenedVariationalStrategy.prior_distribution: add_jitter() default (None = jitter_val, if it is ever repaired)
 
 
 class Model(gpytorch.models.ApproximateGP):
@@ -286,7 +286,7 @@ def jit(cfg):
 # (checked against TLC's lattice states on every run)
 FACTS = {
     "VariationalStrategy": dict(white="chol", xjit=1, kljit="jv", wraps=False),
-    "UnwhitenedVariationalStrategy": dict(white="none", xjit=0, kljit="jv", wraps=False),
+    "UnwhitenedVariationalStrategy": dict(white="none", xjit=0, kljit="1e-3/jv", wraps=False),
     "BatchDecoupledVariationalStrategy": dict(white="chol", xjit=1, kljit="jv", wraps=False),
     "OrthogonallyDecoupledVariationalStrategy": dict(white="none", xjit=0, kljit="jv", wraps=True),
     "CiqVariationalStrategy": dict(white="sym", xjit=2, kljit="jv", wraps=False),
